@@ -5,6 +5,7 @@ package routetab
 import (
 	"context"
 	"sort"
+	"time"
 
 	"github.com/gauss-project/aurorafs/pkg/boson"
 )
@@ -67,4 +68,13 @@ func (s *Service) VerifRelayNext(target boson.Address, paths [][]byte) boson.Add
 	}
 	_, skips := generatePathItems(paths)
 	return s.getNextHopRandom(target, skips...)
+}
+
+// VerifSetFindTimeout sets the default FindRoute timeout (package variable
+// findTimeOut, 3 s) that GetNextHopRandomOrFind's fallback discovery uses;
+// returns the previous value.
+func VerifSetFindTimeout(d time.Duration) time.Duration {
+	old := findTimeOut
+	findTimeOut = d
+	return old
 }
